@@ -371,7 +371,8 @@ def run_one(unit, run, workdir, tier='quick', keep=False, extra_flags='', trace_
         flags += ' --unwind %s --unwinding-assertions' % run['unwind']
     if run.get('unwindset'):
         flags += ' --unwindset %s' % run['unwindset']
-    timeout = int(run.get('timeout', 300))
+    # declared timeouts are sized for an idle machine; a pass costs nothing extra, so leave head-room for a loaded one
+    timeout = max(int(run.get('timeout', 300)), 240) * 2
     if tier == 'thorough':
         timeout *= 4
     solver = extra_flags
